@@ -103,9 +103,22 @@ class OptimizationAbstract(ABC, Generic[T]):
 
         # Parallel mode
         with get_pool_executor(self._mode, self._workers) as executor:
-            executors = [executor.submit(self._init_agent) for _ in range(0, n_agents)]
+            if self._mode == ModeSolver.PROCESS:
+                # forked workers inherit the parent's generator state and would all replay the same random numbers:
+                # every evaluation gets its own seed, drawn in the parent
+                seeds = np.random.randint(0, 2 ** 31 - 1, size=n_agents)
+                executors = [executor.submit(self._init_seeded_agent, int(seed)) for seed in seeds]
+            else:
+                executors = [executor.submit(self._init_agent) for _ in range(0, n_agents)]
             pop = get_pool_results(executors)
         return pop
+
+    def _init_seeded_agent(self, seed: int) -> Agent:
+        """
+        This method initializes a random agent in a worker process, after seeding the worker's generator.
+        """
+        np.random.seed(seed)
+        return self._init_agent()
 
     def _init_population(self):
         """
